@@ -268,6 +268,34 @@ def _load_signatures():
         return {}
 
 
+_FLIP = {"<": ">", ">": "<", "<=": ">=", ">=": "<=", "==": "==", "!=": "!="}
+
+
+def _normalise_comparisons(body):
+    """one spelling per comparison: a constant operand goes to the right (0 <= f(x)  ->  f(x) >= 0), otherwise `>`/`>=`
+    are written as `<`/`<=` with the operands exchanged, and the operands of ==/!= are put in a fixed (textual) order.
+    Rules and frozen tables then do not depend on which way round a maintainer wrote the test."""
+    if body is None:
+        return
+    for n in walk(body):
+        if n.get("k") != "Bin" or n.get("op") not in _FLIP:
+            continue
+        x, y = n.get("x"), n.get("y")
+        if not isinstance(x, dict) or not isinstance(y, dict):
+            continue
+        cx, cy = int_val(x) is not None, int_val(y) is not None
+        swap = False
+        if cx != cy:
+            swap = cx
+        elif not cx:
+            if n["op"] in (">", ">="):
+                swap = True
+            elif n["op"] in ("==", "!="):
+                swap = show(x) > show(y)
+        if swap:
+            n["x"], n["y"], n["op"] = y, x, _FLIP[n["op"]]
+
+
 SIGNATURES = None       # name (or "file:name" for statics) -> reference parameter names; loaded on first use
 
 
@@ -317,6 +345,7 @@ class Program:
             for fd in d["functions"]:
                 _name_indirect_calls(fd.get("body"))
                 _normalise_params(fd, relpath(fd.get("file") or u))
+                _normalise_comparisons(fd.get("body"))
                 f = Func(fd, u)
                 self.by_unit[u].append(f)
                 if f.static or fd.get("inline"):
